@@ -304,3 +304,18 @@ mod test {
     //     }
     // }
 }
+
+#[cfg(rumqtt_verif)]
+impl Outgoing {
+    pub(crate) fn verif_inflight(&self) -> String {
+        format!(
+            "last{}:{:?}:rel{:?}",
+            self.last_pkid,
+            self.inflight_buffer
+                .iter()
+                .map(|(p, f, c)| (*p, *f, *c))
+                .collect::<Vec<_>>(),
+            self.unacked_pubrels
+        )
+    }
+}
